@@ -150,6 +150,8 @@ def presentation(rng, kind, groups):
                 p[part] = ('unit', u, factor(u)[0])
         tu = rng.choice(T_UNITS + [None])
         p['T'] = ('bare', 1.0) if tu is None else ('unit', tu[0], tu[1])
+        # bare numbers also in the spellings PyYAML reads as text
+        p['numeral'] = rng.choice(['plain', 'plain', 'quoted', 'nolead'])
         pres[n] = p
     return block, pres, weight
 
